@@ -7,6 +7,7 @@ from __future__ import annotations
 from ..absval import AbsRaise, Obj, Stub
 from ..astq import loc
 from ..model import AnalysisError
+from . import roles
 
 
 class RunEval:
@@ -22,10 +23,10 @@ class RunEval:
         self.x = w.call("x")
         self.x.attrs["fn"] = self._fn("x", fail)
         self.lit = w.interp.call_func(m.method("Plan", "lit", "EVAL"), None, [7], {}, bound_self=w.plan)
-        self.c = w.interp.call_func(m.method("Plan", "_call", "EVAL"), None, ["FRAME", self._fn("c", fail), self.x, self.lit], {"k": self.x},
+        self.c = w.interp.call_func(roles.call_ctor(m), None, ["FRAME", self._fn("c", fail), self.x, self.lit], {"k": self.x},
                                     bound_self=w.plan)
         # a second, later consumer of x (x is consumed twice by c and once by d)
-        self.d = w.interp.call_func(m.method("Plan", "_call", "EVAL"), None, ["FRAME", self._fn("d", fail), self.x], {}, bound_self=w.plan)
+        self.d = w.interp.call_func(roles.call_ctor(m), None, ["FRAME", self._fn("d", fail), self.x], {}, bound_self=w.plan)
         w.names[id(self.d)] = "d"
         # two calls that run only for their effect: nobody consumes their results
         self.s1, self.s2 = w.call("s1"), w.call("s2")
@@ -74,7 +75,8 @@ class RunEval:
         tables = [v for v in vals if isinstance(v, dict)]
         procs = [v for v in vals if not isinstance(v, (dict, Obj)) or (isinstance(v, Obj) and "__call__" in v.attrs)]
         procs = [v for v in vals if type(v).__name__ in ("Closure",)] or procs
-        slots = [v for v in vals if isinstance(v, Obj) and v.cls is not None and any(c_.name == "Slot" for c_ in v.cls.repo_mro())]
+        # the output slot: the record field that is an object with a `value` cell (not the plan, not a table, not the callback)
+        slots = [v for v in vals if isinstance(v, Obj) and v.cls is not None and "value" in v.attrs and "graph" not in v.attrs]
         if len(tables) != 1 or len(procs) != 1:
             raise AnalysisError("run preparation: cannot identify the bound-call table and the run callback in its result")
         return tables[0], (slots[0] if slots else None), procs[0]
@@ -232,7 +234,7 @@ def rule_run_callback(ctx, rr, rid_binding=None, rid_slots=None, rid_release=Non
         ctx.ob(rid_slots, f"{f.short}/bound-calls-for-calls-only", ok, loc(f), "bound calls exist only for exact Call nodes" if ok else
                "a non-Call node can get a bound call (its .result.value store would overwrite a Literal)")
         ok = ev.lit.attrs.get("value") == 7 and out_slot is not None and out_slot2 is not None and out_slot is not out_slot2 \
-            and out_slot2.attrs.get("value") is None and out_slot is not ev.c and out_slot.cls is not None and any(c_.name == "Slot" for c_ in out_slot.cls.repo_mro())
+            and out_slot2.attrs.get("value") is None and out_slot is not ev.c and out_slot.cls is not None and out_slot.cls is not ev.c.cls and out_slot.cls is not ev.lit.cls
         ctx.ob(rid_slots, f"{f.short}/one-fresh-slot-per-node", ok, loc(f),
                "slot table: node itself for exact Literal nodes, a fresh Slot(None) for every other node (a second preparation of "
                "the same plan shares no slot with the first; the literal keeps its value)" if ok else
@@ -325,16 +327,32 @@ def rule_frames_of_created_calls(ctx, rid, rr):
     return all(out)
 
 
+def totals_function(m, section):
+    """Role: the function outside the progress package that announces the totals of `section` (an increment_total call whose section
+    argument is that constant) - today _update_run_totals / _update_stale_totals."""
+    import ast as _ast
+    found = []
+    for f in m.funcs.values():
+        if f.module.name.startswith("uberjob.progress") or f.module.name.startswith("uberjob._testing"):
+            continue
+        for c in f.own_calls():
+            if isinstance(c.func, _ast.Attribute) and c.func.attr == "increment_total":
+                sec = [k.value for k in c.keywords if k.arg == "section"]
+                if sec and isinstance(sec[0], _ast.Constant) and sec[0].value == section:
+                    found.append(f)
+    found = list(dict.fromkeys(found))
+    if len(found) != 1:
+        raise AnalysisError(f"role TOTALS[{section}]: expected one function announcing the '{section}' totals, found {[f.qualname for f in found]}")
+    return found[0]
+
+
 def rule_totals(ctx, rid, rr, rid_positive=None):
     """Totals, evaluated on a symbolic plan with calls a1, a2 (scope A), b (scope B) and a literal: the run-totals function
     announces, for section 'run', exactly one total per scope whose amount is the number of Call nodes in it (2 and 1, never
     0), and the scope it announces for a call is the scope the run callback reports for that call."""
     from .rewriterules import World
     m = ctx.model
-    fs = m.find_funcs("_update_run_totals")
-    if len(fs) != 1:
-        raise AnalysisError("run-totals function (_update_run_totals) not found")
-    f = fs[0]
+    f = totals_function(m, "run")
     w = World(m, rr)
     a1, a2, b = w.call("a1", scope=("A",)), w.call("a2", scope=("A",)), w.call("b", scope=("B",))
     w.interp.call_func(m.method("Plan", "lit", "EVAL"), None, [7], {}, bound_self=w.plan)
